@@ -40,6 +40,30 @@ SMALL_ITEMS = [
 ]
 SMALL_FINDING_ITEMS = [["-isystem/d"], ["-includef.h"], ["-I", "-d"], ["-I=d"], ["-D--"], ["-i"]]
 
+REAL_CCS = ["gcc", "g++", "clang", "clang++", "icx", "icpx", "nvcc"]
+
+
+def _compiler_tables():
+    """per built-in compiler, read from the TOML files with tomllib (not through CBI):
+    (flags with a zero-argument action, all registered flags, implicit options)"""
+    import tomllib
+    out, alias = {}, {}
+    for f in sorted((common.REPO / "codebasin" / "compilers").glob("*.toml")):
+        for name, d in tomllib.loads(f.read_text())["compiler"].items():
+            if "alias_of" in d:
+                alias[name] = d["alias_of"]
+                continue
+            const = [fl for o in d.get("parser", []) if o["action"] in ("append_const", "store_const", "store_true", "store_false")
+                     for fl in o["flags"]]
+            flags = [fl for o in d.get("parser", []) for fl in o["flags"]]
+            out[name] = (const, flags, list(d.get("options", [])))
+    for a, t in alias.items():
+        while t in alias:
+            t = alias[t]
+        out[a] = out[t]
+    return out
+
+
 LONG = ("-isystem", "-include")
 BARE_VALUE_FLAGS = ("-D", "-I", "-isystem", "-include", "-o")
 
@@ -90,7 +114,7 @@ def _dashy(t):
     return True
 
 
-def class_instances(argv):
+def class_instances(argv, const_flags=()):
     """[(class id, position)] for every token that is spelled in a way a known finding covers
     (left-to-right walk; the token after a bare value-taking flag is that flag's value)."""
     out = []
@@ -111,13 +135,17 @@ def class_instances(argv):
             out.append(("attached-long", i))
         elif len(t) >= 2 and any(f.startswith(t) for f in LONG):
             out.append(("abbrev", i))
+        elif "=" in t and t.split("=", 1)[0] in const_flags:
+            out.append(("const-flag-eq", i))
+        elif len(t) >= 2 and not t.startswith("--") and any(f.startswith(t) and f != t for f in const_flags):
+            out.append(("abbrev-of-compiler-flag", i))
     return out
 
 
-def neutralise(argv):
+def neutralise(argv, const_flags=()):
     """Re-spell every class instance in an equivalent (or neutral) way the findings do not cover."""
     argv = list(argv)
-    inst = class_instances(argv)
+    inst = class_instances(argv, const_flags)
     for cls, i in sorted(inst, key=lambda x: -x[1]):
         t = argv[i]
         if cls == "dash-value":
@@ -129,7 +157,7 @@ def neutralise(argv):
         elif cls == "attached-long":
             rest = t[8:]
             argv[i:i + 1] = [t[:8], ("x" + rest[1:]) if rest.startswith("-") else rest]
-        elif cls == "abbrev":
+        elif cls in ("abbrev", "const-flag-eq", "abbrev-of-compiler-flag"):
             argv[i] = "-zz"
     return argv
 
@@ -153,8 +181,10 @@ class C11(Check):
     def __init__(self, tier, seed):
         super().__init__(tier, seed)
         self._root = None
-        self._hist = {"kind": {}, "argv_len": {}, "outcome": {}, "outcome_malformed": {}, "classes": {}, "split_outcome": {}}
+        self._hist = {"kind": {}, "argv_len": {}, "outcome": {}, "outcome_malformed": {}, "classes": {}, "split_outcome": {},
+                      "real_compiler": {}, "outcome_real_compiler": {}}
         self._seen = set()
+        self._cct = _compiler_tables()
         self._py_coq_spec_mismatch = []
 
     # ------------------------------------------------------------ generation
@@ -240,6 +270,20 @@ class C11(Check):
                 out.append(argv_case(self.random_vector(self.rng.randint(2, 12)), True))
             else:
                 out.append(argv_case(self.random_vector(self.rng.randint(12, 30), safe_only=self.rng.random() < 0.5), True))
+        # 4b. the same grammar under the built-in compilers (their own options, implicit options, modes and passes are
+        #     C12's: vectors avoid the flags the compiler's definition registers; S = the scanner over argv + the
+        #     compiler's implicit options; I vs S only)
+        def unregistered(cc, items):
+            flags = self._cct[cc][1]
+            return [it for it in items if not any(t in flags or ("=" in t and t.split("=", 1)[0] in flags) for t in it)]
+        for cc in REAL_CCS:
+            for e in CATALOGUE[:: (3 if quick else 1)]:
+                out.append({"kind": "cc", "cc": cc, "dom": True,
+                            "items": unregistered(cc, [["-DA"], list(e), ["-I", "inc"], ["-include", "f.h"]])})
+        for i in range(600 if quick else 20000):
+            cc = self.rng.choice(REAL_CCS)
+            out.append({"kind": "cc", "cc": cc, "dom": True,
+                        "items": unregistered(cc, self.random_vector(self.rng.randint(2, 12), safe_only=self.rng.random() < 0.7))})
         # 5. malformed stream (outside the quantifier: compared with M only)
         for i in range(2000 if quick else 30000):
             out.append(argv_case(self.malformed_vector(), False))
@@ -259,13 +303,13 @@ class C11(Check):
         return flatten(case["items"])
 
     def encode(self, case):
-        if case["kind"] == "argv":
+        if case["kind"] in ("argv", "cc"):
             return enc(["argv", [t.encode("latin-1") for t in self.argv(case)]])
         # (bytes are always hex-encoded: common.enc would pass "a\n" through as a bare word)
         return enc(["split", case["s"].encode("latin-1")])
 
     # ------------------------------------------------------------ implementation
-    def _parse(self, argv):
+    def _parse(self, argv, cc=CC):
         from codebasin import config
         recs = []
 
@@ -281,7 +325,7 @@ class C11(Check):
         try:
             with contextlib.redirect_stderr(io.StringIO()):
                 try:
-                    cfgs = config.ArgumentParser(CC).parse_args(list(argv))
+                    cfgs = config.ArgumentParser(cc).parse_args(list(argv))
                 except SystemExit:
                     return ["SystemExit"]
                 except argparse.ArgumentError:
@@ -291,6 +335,8 @@ class C11(Check):
         finally:
             lg.removeHandler(h)
             lg.propagate, lg.level = old_prop, old_level
+        if cc != CC:
+            cfgs = [c for c in cfgs if c.pass_name == "default"]
         if len(cfgs) != 1 or cfgs[0].pass_name != "default":
             return ["Err", "passes", [c.pass_name for c in cfgs]]
         c = cfgs[0]
@@ -378,6 +424,11 @@ class C11(Check):
             inc("kind", "split")
             inc("split_outcome", ia[0] if ia[0] == "Ok" else ia[1])
             return
+        if case["kind"] == "cc":
+            inc("kind", "real-compiler")
+            inc("real_compiler", case["cc"])
+            inc("outcome_real_compiler", ia[0])
+            return
         inc("kind", "argv-in-domain" if case.get("dom") else "argv-malformed")
         if case.get("db"):
             inc("kind", "argv-through-load_database")
@@ -393,6 +444,10 @@ class C11(Check):
             self._count(case, r)
             return r
         argv = self.argv(case)
+        if case["kind"] == "cc":
+            direct = self._parse(argv, case["cc"])
+            self._count(case, direct)
+            return [direct]
         direct = self._parse(argv)
         self._count(case, direct)
         db = self._database(argv, direct) if case.get("db") else "n/a"
@@ -400,6 +455,8 @@ class C11(Check):
 
     # ------------------------------------------------------------ views
     def model_view(self, case, ans):
+        if case["kind"] == "cc":
+            return None            # compiler-specific tables are not modelled here (C12)
         if case["kind"] == "split":
             return ans
         res, _s, cmd, sp = ans
@@ -423,54 +480,60 @@ class C11(Check):
             lists = coq
         else:
             lists = py
+        if case["kind"] == "cc":
+            return [["Ok"] + scan_py(argv + self._cct[case["cc"]][2])]
         return [["Ok"] + lists, ["Ok", argv], "same" if case.get("db") else "n/a"]
 
     def impl_view_for_spec(self, case, ia):
         if case["kind"] == "split":
             return ia
+        if case["kind"] == "cc":
+            return [ia[0][:4]]
         return [ia[0][:4], ia[2], ia[3]]
 
     def in_domain(self, case, spec_ans):
-        return case["kind"] == "argv" and bool(case.get("dom"))
+        return case["kind"] in ("argv", "cc") and bool(case.get("dom"))
 
     def nontrivial(self, case, ia):
-        if case["kind"] != "argv":
+        if case["kind"] not in ("argv", "cc"):
             return False
         s = scan_py(self.argv(case))
         n_rec = sum(len(x) for x in s)
         return n_rec >= 1 and len(case["items"]) > n_rec
 
     def classify(self, case, ia, sa):
-        if case["kind"] != "argv":
+        if case["kind"] not in ("argv", "cc"):
             return None
+        is_cc = case["kind"] == "cc"
+        const = self._cct[case["cc"]][0] if is_cc else ()
         argv = self.argv(case)
-        inst = class_instances(argv)
+        inst = class_instances(argv, const)
         if not inst:
             return None
-        # the findings describe a normal return (or the caught ArgumentError for dash-value, or SystemExit for the
-        # ambiguous abbreviation -i): any other way of failing is a different defect
+        # the findings describe a normal return (or the caught ArgumentError for dash-value / const-flag-eq, or
+        # SystemExit for the ambiguous abbreviation -i): any other way of failing is a different defect
         how = ia[0][0]
         kinds = {c for c, _ in inst}
-        if how not in ("Ok", "ArgErr", "SystemExit") or (how == "ArgErr" and "dash-value" not in kinds) \
+        if how not in ("Ok", "ArgErr", "SystemExit") or (how == "ArgErr" and not kinds & {"dash-value", "const-flag-eq"}) \
                 or (how == "SystemExit" and "-i" not in argv):
             return None
-        if ia[1] != shlex.join(argv) or ia[2] != ["Ok", argv]:
+        if not is_cc and (ia[1] != shlex.join(argv) or ia[2] != ["Ok", argv]):
             return None
         # narrow: the failure must disappear when only the class spellings are replaced
-        rep = neutralise(argv)
-        if class_instances(rep):
+        rep = neutralise(argv, const)
+        if class_instances(rep, const):
             return None
-        rcase = {"kind": "argv", "items": [[t] for t in rep], "dom": True, "db": False}
+        rcase = dict(case, items=[[t] for t in rep], db=False)
         ria = self.impl(rcase)
-        rsa = [["Ok"] + scan_py(rep), ["Ok", rep], "n/a"]
+        rsa = [["Ok"] + scan_py(rep + self._cct[case["cc"]][2])] if is_cc else [["Ok"] + scan_py(rep), ["Ok", rep], "n/a"]
         if self.impl_view_for_spec(rcase, ria) != rsa:
             return None
         return min(inst, key=lambda x: x[1])[0]
 
     def shrink(self, case, still_fails):
-        if case["kind"] != "argv":
+        if case["kind"] not in ("argv", "cc"):
             return case
-        mk = lambda its: {"kind": "argv", "items": its, "dom": case["dom"], "db": case.get("db", False)}  # noqa
+        mk = lambda its: dict(case, items=its)  # noqa
         return mk(common.shrink_list(case["items"], lambda its: still_fails(mk(its))))
 
     def self_tests(self):
